@@ -58,17 +58,23 @@ def _check_group(T, tag, info_lower, info_upper, info_viol, values, lb, ub):
 def cases_create(tier):
     kinds = ("fin", "inf")
     # variable bounds: every kind combination for 1 and 2 variables
-    for n in (1, 2):
+    for n in (1, 2) + ((3,) if tier == "thorough" else ()):
         for lk in itertools.product(kinds, repeat=n):
             for uk in itertools.product(kinds, repeat=n):
                 yield "bounds/n%d/%s/%s" % (n, "".join(k[0] for k in lk), "".join(k[0] for k in uk)), {"n": n, "lk": list(lk), "uk": list(uk), "lin": 0, "nl": 0}
     # linear and non-linear rows: every kind per row, up to 2 rows (3 in thorough for non-linear)
-    for rows in (1, 2):
+    for rows in (1, 2) + ((3,) if tier == "thorough" else ()):
         for lk in itertools.product(kinds, repeat=rows):
             for uk in itertools.product(kinds, repeat=rows):
                 cid = "%s/%s" % ("".join(k[0] for k in lk), "".join(k[0] for k in uk))
                 yield "linear/r%d/%s" % (rows, cid), {"n": 2, "lk": ["inf", "inf"], "uk": ["inf", "inf"], "lin": rows, "lin_lk": list(lk), "lin_uk": list(uk), "nl": 0}
                 yield "nonlinear/r%d/%s" % (rows, cid), {"n": 1, "lk": ["fin"], "uk": ["inf"], "lin": 0, "nl": rows, "nl_lk": list(lk), "nl_uk": list(uk)}
+    if tier == "thorough":
+        # all three groups together, every kind pattern of two entries shared by the groups, plus mixed patterns
+        for lk in itertools.product(kinds, repeat=2):
+            for uk in itertools.product(kinds, repeat=2):
+                cid = "%s/%s" % ("".join(k[0] for k in lk), "".join(k[0] for k in uk))
+                yield "all/%s" % cid, {"n": 2, "lk": list(lk), "uk": list(uk), "lin": 2, "lin_lk": list(uk), "lin_uk": list(lk), "nl": 2, "nl_lk": list(lk)[::-1], "nl_uk": list(uk)[::-1]}
 
 
 def _make(T, case):
@@ -155,6 +161,9 @@ def cases_transform(tier):
                 if not (has_b or has_l or has_nl):
                     continue
                 yield "var=%s/nl=%s/groups=%d%d%d" % (var_tr, nl_tr, has_b, has_l, has_nl), {"var_tr": var_tr, "nl_tr": nl_tr, "has_b": has_b, "has_l": has_l, "has_nl": has_nl}
+                if tier == "thorough":
+                    for n, r in ((1, 2), (3, 2), (3, 3)):
+                        yield "var=%s/nl=%s/groups=%d%d%d/n%d/r%d" % (var_tr, nl_tr, has_b, has_l, has_nl, n, r), {"var_tr": var_tr, "nl_tr": nl_tr, "has_b": has_b, "has_l": has_l, "has_nl": has_nl, "n": n, "r": r}
 
 
 def scn_transform(T, case):
@@ -163,21 +172,21 @@ def scn_transform(T, case):
     CI = T.under_contract(sh, M_INFO, "ConstraintInfo") if T.symbolic else T.func(M_INFO, "ConstraintInfo")
     if T.symbolic:
         T.under_contract(sh, M_INFO, "ConstraintInfo.transform_from_optimizer")
-    n = 2
+    n, r = case.get("n", 2), case.get("r", 1)
     kw = {}
     if case["has_b"]:
         bl, bu = T.real("bl", (n,)), T.real("bu", (n,))
         kw.update(bound_lower=bl, bound_upper=bu)
     if case["has_l"]:
-        ll, lu = T.real("ll", (1,)), T.real("lu", (1,))
+        ll, lu = T.real("ll", (r,)), T.real("lu", (r,))
         kw.update(linear_lower=ll, linear_upper=lu)
     if case["has_nl"]:
-        nl_l, nl_u = T.real("nl", (1,)), T.real("nu", (1,))
+        nl_l, nl_u = T.real("nl", (r,)), T.real("nu", (r,))
         kw.update(nonlinear_lower=nl_l, nonlinear_upper=nl_u)
     info = CI(**kw)
     s = T.real("s", (n,), lo=0.001)
-    e = T.real("e", (1,), lo=0.001)
-    k = T.real("k", (1,), lo=0.001)
+    e = T.real("e", (r,), lo=0.001)
+    k = T.real("k", (r,), lo=0.001)
     tr = types.SimpleNamespace(variables=_VarTr(s, e) if case["var_tr"] else None, nonlinear_constraints=_NlTr(k) if case["nl_tr"] else None)
     try:
         out = info.transform_from_optimizer(tr)
@@ -209,6 +218,9 @@ def cases_violates(tier):
     for tol in ("none", "zero", "sym"):
         for groups in itertools.product((False, True), repeat=3):
             yield "tol=%s/groups=%s" % (tol, "".join("1" if g else "0" for g in groups)), {"tol": tol, "groups": list(groups)}
+            if tier == "thorough":
+                for m in (1, 3):
+                    yield "tol=%s/groups=%s/m%d" % (tol, "".join("1" if g else "0" for g in groups), m), {"tol": tol, "groups": list(groups), "m": m}
     yield "no-info", {"tol": "sym", "groups": None}
 
 
@@ -222,7 +234,7 @@ def scn_violates(T, case):
     else:
         vals = {}
         for name, present in zip(("bound_violation", "linear_violation", "nonlinear_violation"), case["groups"]):
-            vals[name] = T.real(name, (2,), lo=0.0) if present else None
+            vals[name] = T.real(name, (case.get("m", 2),), lo=0.0) if present else None
             if present:
                 viols.append(vals[name])
         info = types.SimpleNamespace(**vals)
@@ -232,7 +244,7 @@ def scn_violates(T, case):
     if tol is None:
         T.prove("C13.violates.no_tolerance_means_feasible", got is False or got == False)  # noqa: E712
         return
-    expect = T.any([v[i] > tol for v in viols for i in range(2)])
+    expect = T.any([v[i] > tol for v in viols for i in range(case.get("m", 2))])
     T.prove("C13.violates.iff_some_violation_exceeds_tolerance", _iff(T, got, expect))
 
 
